@@ -80,6 +80,7 @@ class C01System(BuilderSystem):
             ops.append(["trace.thread", [tgt(2, 0, 2)], {"pitch": 1}])
             ops.append(["trace.spiral", [tgt(2, 0)], {"turns": 1}])
             ops.append(["line_parametric", [2.0], {}])
+            ops.append(["line_parametric", [2.0, 1.5], {}])      # a curve that does not start at the current position
         return ops
 
     # ---- transition + oracle ----------------------------------------
@@ -88,9 +89,10 @@ class C01System(BuilderSystem):
         if op[0] == "line_parametric":
             p = st.g.position.resolve()
             length = op[1][0]
+            gap = op[1][1] if len(op[1]) > 1 else 0.0
 
-            def fn(thetas, p=p, length=length):
-                return np.column_stack((p.x + thetas * length, p.y + 0 * thetas, p.z + 0 * thetas))
+            def fn(thetas, p=p, length=length, gap=gap):
+                return np.column_stack((p.x + gap + thetas * length, p.y - gap + 0 * thetas, p.z + 0 * thetas))
             try:
                 st.g.trace.parametric(fn, length)
                 exc = None
